@@ -125,7 +125,7 @@ func Cow(p *core.Prog, r *core.Report) {
 	r.Count("cow_store_sites", nStores)
 	r.Count("cow_load_sites", nLoads)
 	r.Floor("cow_store_sites", 1)
-	r.Floor("cow_load_sites", 3)
+	r.Floor("cow_load_sites", 2)
 	r.OK(rule, "published-map-immutable", p.Pos(cache.Pos()), fmt.Sprintf("no MapUpdate/delete on a value derived from %s.Load() in %d functions", cache.Name(), len(p.Funcs)))
 
 	// --- publication sites -------------------------------------------------
@@ -441,7 +441,7 @@ func Cow(p *core.Prog, r *core.Report) {
 		}
 	}
 	r.Count("cow_lookup_funcs", len(lookupFuncs))
-	r.Floor("cow_lookup_funcs", 2)
+	r.Floor("cow_lookup_funcs", 1)
 
 	// --- choke point: nobody else compiles or matches raw patterns ---------------
 	rawMatch := map[string]bool{"regexp.MatchString": true, "regexp.Match": true, "regexp.MatchReader": true}
